@@ -4,7 +4,7 @@
 //! enabling efficient exploration of the plan space.
 
 use std::{
-    collections::{HashMap, hash_map::DefaultHasher},
+    collections::{HashMap, HashSet, hash_map::DefaultHasher},
     hash::{Hash, Hasher},
 };
 
@@ -111,6 +111,8 @@ impl Group {
 pub struct Memo {
     groups: Vec<Group>,
     expr_to_group: HashMap<u64, GroupId>,
+    /// Groups holding the commuted form of a join (created by JoinCommutativity).
+    commuted: HashSet<GroupId>,
 }
 
 impl Memo {
@@ -118,7 +120,16 @@ impl Memo {
         Self {
             groups: Vec::new(),
             expr_to_group: HashMap::new(),
+            commuted: HashSet::new(),
         }
+    }
+
+    pub fn mark_commuted(&mut self, id: GroupId) {
+        self.commuted.insert(id);
+    }
+
+    pub fn is_commuted(&self, id: GroupId) -> bool {
+        self.commuted.contains(&id)
     }
 
     /// Creates a new group with the given logical properties.
